@@ -78,7 +78,14 @@ class World:
                     continue        # reported by C20
                 self.units[sym] = u
                 tm.units.append(sym)
-                self.um[sym] = UnitM(sym, tname, scale, None)
+                if scale is None:       # temperature scales
+                    um = UnitM(sym, tname, None, ((sym, 1),))
+                else:
+                    base = {'M': 'kg', 'L': 'm', 'T': 's', 'D': 'B'}
+                    um = UnitM(sym, tname, scale, tuple(sorted(
+                        (base[k], v) for k, v in dim)))
+                    um.ufac = scale
+                self.um[sym] = um
 
     # -- helpers -------------------------------------------------------------
     def unit_dims(self, sym):
